@@ -45,7 +45,8 @@ Qed.
 (** ---- static conditions on programs ---- *)
 Fixpoint replayable (c : code) : Prop :=
   match c with
-  | Ret _ | Raise _ | Interrupt => True
+  | Ret _ | Interrupt => True
+  | Raise ty => exn_of_name ty = EUser ty       (* service code raising framework-typed exceptions: outside this theorem *)
   | Inp cf body _ _ k =>
       (match i_handler cf with
        | None => True
@@ -525,24 +526,28 @@ End Reproduce.
 (** ---- run level ---- *)
 Definition user_outcome (o : outcome) : Prop := match o with OExn (EUser _) | OVal _ | OInt => True | _ => False end.
 
-Lemma plain_exec_user : forall c env, user_outcome (fst (plain_exec c env)).
+Lemma plain_exec_user : forall c env, replayable c -> user_outcome (fst (plain_exec c env)).
 Proof.
   induction c as [e|ty| |cf body IHb args kwargs k IHk|cf body IHb args kwargs k IHk|c1 IH1 h IHh|c1 IHs1 k IHsk
-                  |k IHk|k IHk|b k IHk|key e k IHk|key k IHk]; intros env; cbn [plain_exec]; try exact I; auto.
-  - specialize (IHb (body_env (map (eval env) args) (eval_kw env kwargs))).
+                  |k IHk|k IHk|b k IHk|key e k IHk|key k IHk]; intros env Rp; cbn [plain_exec replayable] in *; try exact I; auto.
+  - rewrite Rp. exact I.
+  - destruct Rp as (_ & Rb & Rk). specialize (IHb (body_env (map (eval env) args) (eval_kw env kwargs)) Rb).
     unfold plain_call, pbind_val. destruct (plain_exec body _) as [o l1]. cbn [fst] in *.
-    destruct o as [v|ex|]; auto. specialize (IHk (env ++ [v])). destruct (plain_exec k _) as [o2 l2]. exact IHk.
-  - specialize (IHb (body_env (map (eval env) args) (eval_kw env kwargs))).
+    destruct o as [v|ex|]; auto. specialize (IHk (env ++ [v]) Rk). destruct (plain_exec k _) as [o2 l2]. exact IHk.
+  - destruct Rp as (Rb & Rk). specialize (IHb (body_env (map (eval env) args) (eval_kw env kwargs)) Rb).
     unfold plain_call, pbind_val. destruct (plain_exec body _) as [o l1]. cbn [fst] in *.
-    destruct o as [v|ex|]; auto. specialize (IHk (env ++ [v])). destruct (plain_exec k _) as [o2 l2]. exact IHk.
-  - specialize (IH1 env). unfold pbind_exn. destruct (plain_exec c1 env) as [o l1]. cbn [fst] in *.
-    destruct o as [v|ex|]; auto. specialize (IHh env). destruct (plain_exec h env) as [o2 l2]. exact IHh.
-  - destruct (plain_exec c1 env) as [o1 l1]. specialize (IHsk env). destruct (plain_exec k env) as [o2 l2]. exact IHsk.
+    destruct o as [v|ex|]; auto. specialize (IHk (env ++ [v]) Rk). destruct (plain_exec k _) as [o2 l2]. exact IHk.
+  - destruct Rp as (R1 & Rh). specialize (IH1 env R1). unfold pbind_exn. destruct (plain_exec c1 env) as [o l1]. cbn [fst] in *.
+    destruct o as [v|ex|]; auto. specialize (IHh env Rh). destruct (plain_exec h env) as [o2 l2]. exact IHh.
+  - destruct Rp.
+  - destruct Rp.
+  - destruct Rp as [_ Rk]. auto.
+  - destruct Rp.
 Qed.
 
-Lemma rec_exec_user P c env s : user_outcome (fst (fst (rec_exec P c env s))).
+Lemma rec_exec_user P c env s : replayable c -> user_outcome (fst (fst (rec_exec P c env s))).
 Proof.
-  pose proof (rec_transparent P c env s) as T. pose proof (plain_exec_user c env) as Hu.
+  intros Rp. pose proof (rec_transparent P c env s) as T. pose proof (plain_exec_user c env Rp) as Hu.
   unfold agrees_plain in T. destruct (rec_exec P c env s) as [[o s1] l]. rewrite T in Hu. exact Hu.
 Qed.
 
@@ -571,7 +576,7 @@ Section ReproduceRun.
       cbv zeta. intros (d & m & I). rewrite C in I. destruct I. }
     rewrite Fo, Co, Ic in Sp.
     pose proof (replay_reproduces P (op_body op) (mk_rst true true false [] false)) as RR.
-    pose proof (rec_exec_user P (op_body op) [] (mk_rst true true false [] false)) as Hu.
+    pose proof (rec_exec_user P (op_body op) [] (mk_rst true true false [] false) Rp) as Hu.
     destruct (rec_exec P (op_body op) [] (mk_rst true true false [] false)) as [[o s1] l0]. cbn [fst] in Hu.
     cbv zeta. intros (d & m & I) N F Cn.
     destruct Sp as (Eo & _ & _ & _ & Sp).
